@@ -1229,6 +1229,12 @@ func (loader *Loader) resolvePathItemRef(doc *T, pathItem *PathItem, documentPat
 			if documentPath, err = loader.loadSingleElementFromURI(ref, documentPath, &p); err != nil {
 				return
 			}
+			if p.Ref != "" && p.isEmpty() {
+				// the file holds a reference itself: follow the chain
+				if err = loader.resolvePathItemRef(doc, &p, documentPath); err != nil {
+					return
+				}
+			}
 			*pathItem = p
 		} else {
 			var resolved PathItem
@@ -1237,6 +1243,12 @@ func (loader *Loader) resolvePathItemRef(doc *T, pathItem *PathItem, documentPat
 					return nil
 				}
 				return
+			}
+			if resolved.Ref != "" && resolved.isEmpty() {
+				// the target is a reference itself: follow the chain
+				if err = loader.resolvePathItemRef(doc, &resolved, documentPath); err != nil {
+					return
+				}
 			}
 			*pathItem = resolved
 		}
